@@ -244,9 +244,26 @@ def real_seeding(ctx, shots):
                     cfg = sim.config.copy(); cfg.seed_sequence = seed
                     sim = type(sim)(d=3, config=cfg)
                 return canon_samples(sim.execute(p, shots=shots).samples)
+            def run_many(interfere, seed=seed):
+                # many shots (some samplers switch algorithm with the shot count): same seed, same samples, and the process-global
+                # generators are neither read nor advanced
+                sim, p = build(seed)
+                if interfere:
+                    np.random.seed(int(ctx.rng.randint(0, 10 ** 6))); np.random.random(3); random.seed(11); random.random()
+                g_np, g_py = np.random.get_state()[1].tobytes(), random.getstate()
+                out = canon_samples(sim.execute(p, shots=700).samples)
+                touched = np.random.get_state()[1].tobytes() != g_np or random.getstate() != g_py
+                return out, touched
             try:
                 a, b, c = run(False), run(True), run(False)
                 e1, e2, e3 = run_assigned(False), run_assigned(True), run_assigned(False)
+                if seed == 3 and ("pnm" in name or "midcircuit" in name) and "dask" not in name:
+                    (m1, t1), (m2, t2) = run_many(False), run_many(True)
+                    ctx.count(("seeding-many", name), nontrivial=True)
+                    if sorted(m1) != sorted(m2):
+                        fails.append((f"seeding-many-shots:{name}", f"{name}: two fresh simulators with seed {seed} and 700 shots gave different samples", {"path": name, "seed": seed, "shots": 700}))
+                    if t1 or t2:
+                        fails.append((f"global-rng-consumed:{name}", f"{name}: sampling 700 shots read or advanced the process-global numpy / random generator", {"path": name, "seed": seed, "shots": 700}))
             except Exception as e:
                 fails.append((f"seeding-raise:{name}", f"{name}: {type(e).__name__}: {str(e)[:120]}", {"path": name, "seed": seed}))
                 break
